@@ -7,6 +7,6 @@ CONSTANTS
   GenVars = {"x"}
   SimpleKinds = {"assign", "use", "cuse", "citer", "cbind", "cwal"}
   Shape = "any"
-INVARIANT InvAll
-INVARIANT EmitDone
+INVARIANT InvAllLive
+INVARIANT EmitLive
 CHECK_DEADLOCK FALSE
